@@ -455,6 +455,9 @@ func runC13(rc *runCtx) *RunResult {
 	}
 	drawKindMask(g.T)
 	maxSteps := 25
+	if rc.tier == "thorough" {
+		maxSteps = 45
+	}
 	steps := drawHistory(g, descs, maxSteps)
 	_ = t
 	for i := range steps {
